@@ -18,6 +18,12 @@ CHECKS = {
     'C03': ('sibling cross-check: the complete fact vector of one engine (event alphabet and site counts, phase and monitor protocol verdicts, loop directions per site, exact _flags relation as a set of tuples, containment status per callback site, reset coverage, serialization keys) compared for equality with the other engine\'s; registration table extraction',
             'Decides that an edit to one engine that is not mirrored in the other shows up as a named fact difference, and that both engines are registered under distinct names with the large engine as default. The fast engine is never run by the test suite; here it is analysed like any other source.',
             'Not decided: equality of traces per input.'),
+    'C04': ('template reconstruction of the emitted C from the stream-insertion statements of the straight-line writers, parsed by clang as C and exported by the same plugin; dimension typing of every array subscript and bit_* helper call of the emitted step function (state vs transition domains carried by distinct array sizes); provenance of the sizing operands in the generator; writer/reader bit-layout comparison; CFG x DFA skeleton check of the emitted step function; index-width provenance',
+            'Decides for ALL documents that the emitted uscxml_step never indexes a state-sized bit array, the state table, a transition-sized bit array or the transition table with an index of the other domain, that every helper call uses one domain, that the array bounds cover the largest machine and the byte counts are ceil(N/8), that initialiser bit order matches the access macros, that the emitted phases follow the same skeleton as the engines, and that the loop variables are wide enough for every emitted machine.',
+            'Not decided: trace equality with the interpreter per chart; the document-dependent tables (C05) and executable-content functions.'),
+    'C05': ('who-may-write / who-may-interpret rules over the DOM annotation attributes (resolved X("...") literals at setAttribute/getAttribute sites); loop-invariance analysis of bit-string filters inside loops over states/transitions; literal-set comparison of the order-defining vocabularies; term extraction of the conflict predicate at its two definition sites',
+            'Decides that the structural tables have a single writer (ChartToC\'s prepare family), that no back-end re-derives default completion from the `initial` attribute (recorded finding for VHDL), that table filters inside element loops really vary with the loop, that C/engines agree on the element vocabulary that defines document and post-fix order, and that the conflict relation is defined with the same terms in both places.',
+            'Not decided: that Predicates.cpp computes the relations the recommendation defines for every state tree.'),
     'C07': ('typed exception-flow fix-point over the whole-program call graph (CHA, handler liveness, library-thrower table), containment check at every engine callback site and at every thread root / C callback, CFG path query through each catch(ErrorEvent) handler, re-entrancy check of enqueue-and-rethrow handlers, dominance of fault guards',
             'Decides for all documents at once that no exception of a repository type can leave step() from a callback site or leave a thread root of the interpreter core, that every ErrorEvent handler on the executable-content path raises the error event on every path exactly once, that a failing block skips only itself, and that the anchored arithmetic/index faults are guarded.',
             'Not decided: out-of-bounds inside third-party C code; exceptions thrown by user-supplied monitors or by library calls outside the library-thrower table.'),
